@@ -33,7 +33,7 @@ def bdFirstFix (spec : DeclSpec) (decls : List DeclInfo) (d0 : DeclInfo) : P (De
       pure (!(← isTypeInScope (strOf names.head!)))
     if ← bad then
       match spec.type with
-      | [] => parseError "Invalid declaration" (← lexFileLoc)
+      | [] => parseError "Invalid declaration" (← hereLoc)
       | t :: _ =>
         match t.coord? with
         | some co => parseError "Invalid declaration" (locOfCoord co)
@@ -154,7 +154,7 @@ def pDeclBodyWithSpec (self : Self) (spec : DeclSpec) (sawType : Bool) : P (List
 def requireSpec (r : Option DeclSpec × Bool × Option Coord) (allowNoType : Bool) :
     P (DeclSpec × Bool × Option Coord) := do
   match r with
-  | (none, _, _) => parseError "Invalid declaration" (← lexFileLoc)
+  | (none, _, _) => parseError "Invalid declaration" (← hereLoc)
   | (some spec, sawType, first) =>
     if !sawType && !allowNoType then parseError "Missing type in declaration" (locOfCoord first)
     else pure (spec, sawType, first)
@@ -272,7 +272,7 @@ def pSqlLoop (self : Self) (spec : Option DeclSpec) (sawType sawAlign : Bool) (f
 /-- `_parse_specifier_qualifier_list` -/
 def pSpecifierQualifierList (self : Self) : P DeclSpec := do
   match ← self (.sqlLoop none false false none) with
-  | (none, _, _, _) => parseError "Invalid specifier list" (← lexFileLoc)
+  | (none, _, _, _) => parseError "Invalid specifier list" (← hereLoc)
   | (some spec, sawType, _, first) =>
     if !sawType then parseError "Missing type in declaration" (locOfCoord first)
     else pure spec
